@@ -42,6 +42,10 @@ template<class A> struct Sess {
     J j; j.str("e","SObserve").num("w",A::W).num("s",s).num("fault",sig); if(!sig){ j.raw("val",val).raw("text",text).num("rrc",rrc); if(rrc==URI_SUCCESS) j.raw("re",re); } g.event_to(shard,j.done()); }
   void observe_all(){ for(int s=1;s<(int)slots.size();++s) observe(s); }
   size_t shard=0;
+  // ---- allocation failure inside a session (episodes with the recording manager only): the k-th request of the NEXT library call fails
+  void arm(long k){ mm.reset(); mm.failAt= usemm? k:0; mm.failFrom=false; }
+  bool disarm(){ mm.failAt=0; for(auto&e:mm.log) if(e.kind!='f'&&e.ok==0) return true; return false; }
+  void cleanup(Uri*u){ if(usemm) A::FreeUriMembersMm(u,&mm.mm); else A::FreeUriMembers(u); }
   // ---- actions
   void exec(const JV&a){ if(dead) return; const std::string&op=a["op"].s; auto S=[&](const char*k){ return (int)a[k].n; };
     if(!can(a)){ g.event_to(shard,J().str("e","SSkip").str("op",op).done()); return; }
@@ -49,27 +53,31 @@ template<class A> struct Sess {
       size_t n=t.size(), bytes=((n*sizeof(Ch)+4095)/4096+1)*4096; b.base=(char*)mmap(nullptr,bytes+4096,PROT_READ|PROT_WRITE,MAP_PRIVATE|MAP_ANONYMOUS,-1,0); b.bytes=bytes; mprotect(b.base+bytes,4096,PROT_NONE);
       b.p=(Ch*)(b.base+bytes-n*sizeof(Ch)); for(size_t k=0;k<n;++k) b.p[k]=(Ch)t[k]; b.n=n; b.live=true;
       g.event_to(shard,J().str("e","SBuf").num("i",i).raw("text",jtext(t)).done()); return; }
-    if(op=="parse"){ int s=S("s"), i=S("i"); Buf&b=bufs[i]; Slot&sl=slots[s]; const Ch*e=nullptr; int rc=-9; memset(&sl.uri,0x5A,sizeof sl.uri);
-      int sig=call([&]{ rc= usemm? A::ParseSingleUriExMm(&sl.uri,b.p,b.p+b.n,&e,&mm.mm) : A::ParseSingleUriEx(&sl.uri,b.p,b.p+b.n,&e); });
-      J j; j.str("e","SParse").num("w",A::W).num("s",s).num("i",i).num("rc",rc).num("fault",sig);
-      if(!sig&&rc==URI_SUCCESS){ sl.held=true; sl.valid=true; sl.owner=false; sl.deps={bdep(i)}; j.raw("out",proj(s)); } else if(!sig){ memset(&sl.uri,0,sizeof sl.uri); }
+    long fk= a.has("fail")? (long)a["fail"].n : 0;
+    if(op=="parse"){ int s=S("s"), i=S("i"); Buf&b=bufs[i]; Slot&sl=slots[s]; const Ch*e=nullptr; int rc=-9; memset(&sl.uri,0x5A,sizeof sl.uri); arm(fk);
+      int sig=call([&]{ rc= usemm? A::ParseSingleUriExMm(&sl.uri,b.p,b.p+b.n,&e,&mm.mm) : A::ParseSingleUriEx(&sl.uri,b.p,b.p+b.n,&e); }); bool mf=disarm();
+      J j; j.str("e","SParse").num("w",A::W).num("s",s).num("i",i).num("rc",rc).num("fault",sig).boo("memfail",mf);
+      if(!sig&&rc==URI_SUCCESS){ sl.held=true; sl.valid=true; sl.owner=false; sl.deps={bdep(i)}; j.raw("out",proj(s)); } else if(!sig){ if(rc==URI_ERROR_MALLOC) call([&]{ cleanup(&sl.uri); }); memset(&sl.uri,0,sizeof sl.uri); }
       g.event_to(shard,j.done()); if(!sig&&rc==URI_SUCCESS) observe(s); return; }
-    if(op=="own"){ int s=S("s"); Slot&sl=slots[s]; std::string pre=proj(s); int rc=-9; int sig=call([&]{ rc= usemm? A::MakeOwnerMm(&sl.uri,&mm.mm) : A::MakeOwner(&sl.uri); });
-      J j; j.str("e","SMakeOwner").num("w",A::W).num("s",s).raw("pre",pre).num("rc",rc).num("fault",sig); if(!sig&&rc==URI_SUCCESS){ sl.owner=true; sl.deps.clear(); j.raw("out",proj(s)); } else dead=true;
+    // a failed in-place call leaves the URI in a state that may only be freed: the caller's ordinary clean-up follows at once
+    auto failed_inplace=[&](int s){ Slot&sl=slots[s]; call([&]{ cleanup(&sl.uri); }); if(sl.owner) invalidate(sdep(s)); sl=Slot(); memset(&sl.uri,0,sizeof sl.uri); };
+    if(op=="own"){ int s=S("s"); Slot&sl=slots[s]; std::string pre=proj(s); int rc=-9; arm(fk); int sig=call([&]{ rc= usemm? A::MakeOwnerMm(&sl.uri,&mm.mm) : A::MakeOwner(&sl.uri); }); bool mf=disarm();
+      J j; j.str("e","SMakeOwner").num("w",A::W).num("s",s).raw("pre",pre).num("rc",rc).num("fault",sig).boo("memfail",mf); if(!sig&&rc==URI_SUCCESS){ sl.owner=true; sl.deps.clear(); j.raw("out",proj(s)); } else if(!sig&&rc==URI_ERROR_MALLOC&&mf) failed_inplace(s); else dead=true;
       g.event_to(shard,j.done()); observe_all(); return; }
     if(op=="norm"){ int s=S("s"); unsigned m=(unsigned)a["m"].n; Slot&sl=slots[s]; std::string pre=proj(s); int rc=-9;
-      int sig=call([&]{ rc= usemm? A::NormalizeSyntaxExMm(&sl.uri,m,&mm.mm) : (m==63&&(obs&1)? A::NormalizeSyntax(&sl.uri) : A::NormalizeSyntaxEx(&sl.uri,m)); });
-      J j; j.str("e","SNormalize").num("w",A::W).num("s",s).num("m",m).raw("pre",pre).num("rc",rc).num("fault",sig);
-      if(!sig&&rc==URI_SUCCESS){ if(m){ if(sl.owner) invalidate(sdep(s)); sl.owner=true; sl.deps.clear(); sl.valid=true; } j.raw("out",proj(s)); } else dead=true;
+      arm(fk); int sig=call([&]{ rc= usemm? A::NormalizeSyntaxExMm(&sl.uri,m,&mm.mm) : (m==63&&(obs&1)? A::NormalizeSyntax(&sl.uri) : A::NormalizeSyntaxEx(&sl.uri,m)); }); bool mf=disarm();
+      J j; j.str("e","SNormalize").num("w",A::W).num("s",s).num("m",m).raw("pre",pre).num("rc",rc).num("fault",sig).boo("memfail",mf);
+      if(!sig&&rc==URI_SUCCESS){ if(m){ if(sl.owner) invalidate(sdep(s)); sl.owner=true; sl.deps.clear(); sl.valid=true; } j.raw("out",proj(s)); } else if(!sig&&rc==URI_ERROR_MALLOC&&mf) failed_inplace(s); else dead=true;
       g.event_to(shard,j.done()); observe_all(); return; }
-    if(op=="add"||op=="rem"){ bool add=op=="add"; int d=S("d"), r=S(add?"r":"s"), b=S("b"); int o= add? (a["o"].b?1:0) : (a["md"].b?1:0); Slot&sd=slots[d]; std::string prer=proj(r), preb=proj(b); int rc=-9; memset(&sd.uri,0x5A,sizeof sd.uri);
+    if(op=="add"||op=="rem"){ bool add=op=="add"; int d=S("d"), r=S(add?"r":"s"), b=S("b"); int o= add? (a["o"].b?1:0) : (a["md"].b?1:0); Slot&sd=slots[d]; std::string prer=proj(r), preb=proj(b); int rc=-9; memset(&sd.uri,0x5A,sizeof sd.uri); arm(fk);
       int sig=call([&]{ if(add) rc= usemm? A::AddBaseUriExMm(&sd.uri,&slots[r].uri,&slots[b].uri,(UriResolutionOptions)o,&mm.mm) : A::AddBaseUriEx(&sd.uri,&slots[r].uri,&slots[b].uri,(UriResolutionOptions)o);
                         else rc= usemm? A::RemoveBaseUriMm(&sd.uri,&slots[r].uri,&slots[b].uri,o?URI_TRUE:URI_FALSE,&mm.mm) : A::RemoveBaseUri(&sd.uri,&slots[r].uri,&slots[b].uri,o?URI_TRUE:URI_FALSE); });
-      J j; j.str("e",add?"SAddBase":"SRemoveBase").num("w",A::W).num("d",d).num(add?"r":"s",r).num("b",b).num(add?"opt":"mode",o).raw(add?"prer":"pres",prer).raw("preb",preb).num("rc",rc).num("fault",sig);
+      bool mf=disarm();
+      J j; j.str("e",add?"SAddBase":"SRemoveBase").num("w",A::W).num("d",d).num(add?"r":"s",r).num("b",b).num(add?"opt":"mode",o).raw(add?"prer":"pres",prer).raw("preb",preb).num("rc",rc).num("fault",sig).boo("memfail",mf);
       if(!sig&&rc==URI_SUCCESS){ sd.held=true; sd.valid=true; sd.owner=false; sd.deps=depsof(r); if(add){ auto x=depsof(b); sd.deps.insert(x.begin(),x.end()); } j.raw("out",proj(d)); Text t; j.raw("text", real_tostring<A>(sd.uri,t)? jopt_some(t):"[]"); }
       else if(!sig){ if(usemm) A::FreeUriMembersMm(&sd.uri,&mm.mm); else A::FreeUriMembers(&sd.uri); memset(&sd.uri,0,sizeof sd.uri); } else dead=true;
       if(!sig){ j.raw("postr",proj(r)).raw("postb",proj(b)); }
-      g.event_to(shard,j.done()); if(!sig&&rc==URI_SUCCESS) observe(d); return; }
+      g.event_to(shard,j.done()); if(!sig&&rc==URI_SUCCESS) observe(d); else if(!sig) observe_all(); return; }
     if(op=="free"){ int s=S("s"); Slot&sl=slots[s]; int sig=call([&]{ if(usemm) A::FreeUriMembersMm(&sl.uri,&mm.mm); else A::FreeUriMembers(&sl.uri); });
       if(sl.owner) invalidate(sdep(s)); sl=Slot(); memset(&sl.uri,0,sizeof sl.uri);
       g.event_to(shard,J().str("e","SFree").num("s",s).num("fault",sig).done()); observe_all(); return; }
@@ -108,6 +116,7 @@ template<class A> static void random_episode(Rng&R,int steps,size_t shard,const 
         else if(c<91) a=act("free",{{"s",1+R.below(NS)}});
         else a=act("scribble",{{"i",1+R.below(NB)},{"how",R.below(3)}});
         found=S.can(a); } }
+    if(found && S.usemm && R.below(4)==0){ const std::string&o=a["op"].s; if(o=="parse"||o=="own"||o=="norm"||o=="add"||o=="rem"){ JV n; n.k=JV::NUM; n.n=1+R.below(6); a.o.push_back({"fail",n}); } }
     if(!S.can(a)) continue; desc+=a.dump(); g.set_case(J().str("driver","session").num("w",A::W).str("script",desc.size()>60000? desc.substr(desc.size()-60000):desc).done()); S.exec(a); }
   S.finish(); g.count(desc,true); }
 
